@@ -539,7 +539,74 @@ pub fn decode_inputs(tier: Tier) -> Vec<ByteFamily> {
     fams.push(strings_over(&ALPHA8_STORAGE, tier.pick(6, 8), "short.alpha8_storage"));
     // (6) concatenations
     fams.push(concatenations(tier));
+    // (8) resynchronisation: junk ++ message-with-storage-header, every truncation; d=1 on a subset
+    fams.extend(resync_families(tier));
     fams
+}
+
+pub fn junk_strings() -> Vec<Vec<u8>> {
+    let mut j: Vec<Vec<u8>> = vec![
+        b"X".to_vec(),
+        b"D".to_vec(),
+        b"DL".to_vec(),
+        b"DLT".to_vec(),
+        b"DLT\0".to_vec(),
+        b"DLTD".to_vec(),
+        b"DDLT".to_vec(),
+        b"\x01".to_vec(),
+        b"LT\x01".to_vec(),
+        b"DLDLT".to_vec(),
+        b"DLT\x02junk".to_vec(),
+        vec![0u8; 8],
+        vec![0xFF; 12],
+        b"0123456789abcde".to_vec(),
+        b"0123456789abcdef".to_vec(),
+        b"0123456789abcdefg".to_vec(),
+        b"DLT log text that looks like a header".to_vec(),
+    ];
+    j.push(b"DLT".repeat(7));
+    j
+}
+
+pub fn resync_families(tier: Tier) -> Vec<ByteFamily> {
+    let msgs: Vec<Vec<u8>> = seed_messages(Tier::Quick)
+        .into_iter()
+        .step_by(tier.pick(6, 2))
+        .map(|mut m| {
+            m.storage = Some(storage(0x0102_0304, 0x0005_0607, "ST"));
+            enc(&m)
+        })
+        .collect();
+    let junks = junk_strings();
+    let mut combos: Vec<Vec<u8>> = vec![];
+    for j in &junks {
+        for m in &msgs {
+            let mut v = j.clone();
+            v.extend_from_slice(m);
+            combos.push(v);
+        }
+    }
+    let mut bounds = vec![];
+    let mut total = 0u64;
+    for c in &combos {
+        total += c.len() as u64 + 1;
+        bounds.push(total);
+    }
+    let ncombos = combos.len();
+    let d1: Vec<Vec<u8>> = combos.iter().step_by(tier.pick(9, 3)).cloned().collect();
+    let cuts = ByteFamily {
+        name: "resync.cuts".into(),
+        about: format!("{} junk strings (partial patterns 'D','DL','DLT','DLT\\0', 15/16/17-byte junk, text starting with DLT, ..) ++ {} storage-header messages = {} buffers, every truncation of each", junks.len(), msgs.len(), ncombos),
+        size: total,
+        gen: Box::new(move |i| {
+            let s = bounds.partition_point(|b| *b <= i);
+            let j = if s > 0 { i - bounds[s - 1] } else { i };
+            combos[s][..j as usize].to_vec()
+        }),
+    };
+    let mut nb = neighbourhood_d1(d1, "resync.d1");
+    nb.about = format!("junk ++ storage-header message buffers: {}", nb.about);
+    vec![cuts, nb]
 }
 
 /// (7) large inputs (> 64 KiB, maximal length prefixes, junk before a storage header)
